@@ -122,3 +122,11 @@ Theorem c19_rbmutex_shape_facts_needed :
             ([(1, 2, 0)] ++ steps 1 4 ++ [(2, 2, 0)] ++ steps 2 2))%Z 1 2 = true.
 Proof. exact (conj no_recheck_refuted (conj clear_after_scan_refuted (conj scan_from_one_refuted (conj scan_short_refuted no_rw_refuted)))). Qed.
 Print Assumptions c19_rbmutex_shape_facts_needed.
+
+(* one of the two "ownership sites" of the access table - removeEntry and its kvBuilder read an entry's value under the
+   policy lock alone - is justified by position, not by a lock: in the source of this run every such read lies in the REMOVED
+   case (Delete took the entry out of the map) or under `if deleted` after `deleted := shard.delete(entry)`, where no API
+   path can reach the entry any more.  (The table is type-level and cannot see positions; this shape fact can.) *)
+Theorem c19_listener_value_read_after_unlink : c_remove_value_owned = true.
+Proof. exact remove_value_owned_as_written. Qed.
+Print Assumptions c19_listener_value_read_after_unlink.
